@@ -72,13 +72,21 @@ def make_regenerate_rule(build_inputs, buildfile, env):
             ))]
         )
 
+    inputs = _inputs(build_inputs, env)
     make.multitarget_rule(
         build_inputs, buildfile,
         targets=_outputs(build_inputs, env),
-        deps=_inputs(build_inputs, env),
+        deps=inputs,
         recipe=[bfg9000('regenerate', lazy=True)],
         clean_stamp=False
     )
+
+    # Give each input an empty rule, so that removing one (e.g. a submodule's
+    # build.bfg or the options.bfg) triggers regeneration instead of stopping
+    # make with "No rule to make target".
+    for i in inputs:
+        if not (env.mopack and i == env.tool('mopack').metadata_file):
+            buildfile.rule(target=i)
 
 
 @ninja.post_rules_hook
@@ -114,8 +122,15 @@ def ninja_regenerate_rule(build_inputs, buildfile, env):
         description='regenerate',
         **rule_kwargs
     )
+    inputs = _inputs(build_inputs, env)
     buildfile.build(
         output=_outputs(build_inputs, env),
         rule='regenerate',
-        implicit=_inputs(build_inputs, env)
+        implicit=inputs
     )
+
+    # As above: a removed input should trigger regeneration, not an error about
+    # a missing file with no rule to make it.
+    for i in inputs:
+        if not (env.mopack and i == env.tool('mopack').metadata_file):
+            buildfile.build(output=i, rule='phony')
